@@ -45,6 +45,8 @@ def install(ex):
     ex.model(r'tracing::Span::(is_disabled|is_none)|tracing::subscriber::Interest::is_never|tracing_core::subscriber::Interest::is_never', lambda e, n, a: True)
     ex.model(r'tracing::__macro_support::__is_enabled|tracing::Span::(has_field|is_enabled).*|tracing(_core)?::(dispatcher::)?Dispatch::enabled', lambda e, n, a: False)
     ex.model(r'tracing::.*|tracing_core::.*|<tracing::.*', lambda e, n, a: Opaque('tracing'))
+    # reading a gauge yields an arbitrary number (it may be combined arithmetically with program values)
+    ex.model(r'vise::.*Gauge.*::get', lambda e, n, a: e.fresh('gauge'))
     ex.model(r'vise::.*|<vise::.*|.*::metrics::.*', lambda e, n, a: Opaque('metrics'))
     ex.error_from = lambda e, n, v: v if not re.search(r'Result<.*anyhow::Error>', M.parse_name(n)[0]) else anyhow_err()
 
